@@ -13,6 +13,7 @@ import (
 	"time"
 
 	"verifharness/lab"
+	"verifharness/sscodec"
 	"verifharness/vk"
 )
 
@@ -246,6 +247,40 @@ func c10History(c *vk.Ctx, r *rand.Rand, hist int, hub *TargetHub, utgt *udpTarg
 	}
 	defer srv.Stop()
 	pp := &pairProbe{srv: srv, hub: hub, utgt: utgt}
+	var held []io.Closer
+	defer func() {
+		for _, h := range held {
+			h.Close()
+		}
+	}()
+	// connections that stay open for the whole history (a silent one, and one that authenticated and
+	// idles in its relay): an update never waits for the old configuration's connections to end
+	for _, ep := range cur.Endpoints() {
+		if ep.Type != "tcp" {
+			continue
+		}
+		if idle, err := net.DialTimeout("tcp", DialAddr(ep.Addr), 5*time.Second); err == nil {
+			held = append(held, idle)
+		}
+		k := ep.Keys[0]
+		caseN := nextID(c.Batch)
+		hub.On(caseIP4(caseN&0xffffff).String(), func(tc *TargetConn) {
+			buf := make([]byte, 64)
+			for {
+				tc.SetReadDeadline(time.Now().Add(10 * time.Minute))
+				if _, err := tc.Read(buf); err != nil {
+					break
+				}
+			}
+			tc.Close()
+		})
+		if cl, err := DialSS(DialAddr(ep.Addr), nil, k, randBytes(r, k.Codec().C.SaltSize)); err == nil {
+			cl.WriteRaw(cl.Enc.Encode(append(sscodec.AddrIP(caseIP4(caseN&0xffffff), hub.Port, false), 'h'), nil))
+			held = append(held, cl.Conn)
+			c.Count("connections_held_open_across_the_history", 1)
+		}
+		break
+	}
 	var removed []KeySpec // keys of earlier generations
 	var trace []string
 	nSteps := 3 + r.Intn(c.N(6, 10))
@@ -497,6 +532,10 @@ func c10History(c *vk.Ctx, r *rand.Rand, hist int, hub *TargetHub, utgt *udpTarg
 		c.Count("quick_succession_updates_settled_on_the_last_file", 1)
 	}
 	// (3) goroutines and descriptors: same as a fresh start of the last loaded configuration
+	for _, h := range held { // the long-lived connections end now; their handlers belong to old configurations
+		h.Close()
+	}
+	held = nil
 	time.Sleep(1200 * time.Millisecond) // UDP associations created by the probes expire (timeout 0.4 s)
 	fdReloaded := len(lab.FDs(srv.Pid))
 	dumpReloaded := srv.QuitDump()
@@ -562,7 +601,7 @@ func init() {
 			return "", false
 		},
 		Run: func(c *vk.Ctx) {
-			for _, s := range []string{"histories", "reloads_ok", "reloads_failed", "matrix_probes", "rotated_id_probes", "final_goroutine_and_fd_audits", "large_configurations_loaded_completely", "quick_succession_updates_settled_on_the_last_file"} {
+			for _, s := range []string{"histories", "reloads_ok", "reloads_failed", "matrix_probes", "rotated_id_probes", "final_goroutine_and_fd_audits", "large_configurations_loaded_completely", "quick_succession_updates_settled_on_the_last_file", "connections_held_open_across_the_history"} {
 				c.Require(s)
 			}
 			c10Run(c)
